@@ -124,6 +124,12 @@ func c11Case(run *ev.Run, srv *svc.Server, cs *svc.ClientSet, kind svc.Kind, pro
 	case "err-late":
 		nmsg = 1 + r.Intn(2)
 	}
+	badFirst := (kind == svc.ServerStream || kind == svc.Bidi) && r.Intn(5) == 0
+	if badFirst {
+		// a first Send that fails in the codec must not cost the metadata
+		prog.Steps = append(prog.Steps, svc.Step{Op: "send", Msg: &gen.Msg{Id: 1, Note: "\xff\xfe"}})
+		overlap += "+failed-first-send"
+	}
 	for i := 0; i < nmsg; i++ {
 		m := &gen.Msg{Id: uint64(50 + i)}
 		replies = append(replies, m)
